@@ -981,6 +981,9 @@ func (f *fsm) established() (fsmState, error) {
 	}
 
 	to, err := established()
+	// wait for the keepAlive manager goroutine: it reads holdTime and
+	// keepAliveInterval, which the next session on this fsm writes
+	<-kaManagerDoneCh
 	verifPoint("fsm.established.exit")
 	f.cleanupConnAndReader()
 	f.holdTimer.Stop()
